@@ -24,7 +24,8 @@ TBuildEq ==
   /\ IsEv("BuildEq") /\ Tr[l].out = "ok" /\ BuildEq(Tr[l].input, Tr[l].arg)
   \* the specification (Intended) leaves arr unchanged: the observation must agree
   /\ Clause("CallerArraysUnchanged", (Tr[l].changed = 1) = (arr'[Tr[l].input] = "modified") /\ (Tr[l].pristine = 1) = (arr'[Tr[l].input] = "orig"))
-TBuildMesh == IsEv("BuildMesh") /\ BuildMesh
+\* building a mesh leaves the settings dictionary the caller passed as it was (scripts and the GUI pass one dictionary to equilibrium and mesh)
+TBuildMesh == IsEv("BuildMesh") /\ BuildMesh /\ Clause("CallerSettingsUnchanged", Tr[l].changed = 0)
 TGeometry == IsEv("Geometry") /\ Geometry /\ last' = "ok"
 TWrite ==
   /\ IsEv("Write") /\ Write
